@@ -7223,3 +7223,65 @@ func valueDependsOn(v, target ssa.Value, depth int) bool {
 	}
 	return false
 }
+
+// ---------- R03.18: the 5-bit counts of a dynamic header are range-checked against the RFC ----------
+
+func init() {
+	extend("C03", Rule{ID: "R03.18", Configs: "all", Run: ruleR03_18},
+		"(R03.18) in the dynamic-header set-up every 5-bit count read from the stream (HLIT, HDIST) that is handed on to a parser is bounded by 29 at the call by a dominating comparison: RFC 1951 allows 257..286 literal/length codes and 1..30 distance codes, so 30 and 31 are malformed whatever follows (a limit written with a table-size constant that is one too large accepts 31 distance codes).")
+}
+
+func ruleR03_18(p *Program, r *Report) {
+	r.Expect("R03.18", 2)
+	fn := p.Method(flateRel, "inflate", "setupDynamicHeader")
+	if fn == nil {
+		r.Undecided("R03.18", "anchor", "-", "inflate.setupDynamicHeader exists", "not found")
+		return
+	}
+	// values read with a 5-bit request
+	five := map[ssa.Value]bool{}
+	for _, c := range allCalls(fn) {
+		f := c.Common().StaticCallee()
+		if f == nil || !(f.Name() == "nextBits" || f.Name() == "readBits") || len(c.Common().Args) < 2 {
+			continue
+		}
+		if k, ok := constInt(c.Common().Args[len(c.Common().Args)-1]); ok && k == 5 {
+			if v := c.Value(); v != nil {
+				five[v] = true
+			}
+		}
+	}
+	if len(five) < 2 {
+		r.Undecided("R03.18", "anchor:reads", p.Pos(fn.Pos()), "the set-up reads two 5-bit counts", "found "+itoa(len(five)))
+		return
+	}
+	lab := newLabeler()
+	judged := map[ssa.Value]bool{}
+	for _, c := range allCalls(fn) {
+		f := c.Common().StaticCallee()
+		if f == nil || f.Blocks == nil || !p.InRepo(f) || f.Name() == "nextBits" || f.Name() == "readBits" {
+			continue
+		}
+		for _, a := range c.Common().Args {
+			v := stripConv(a)
+			if !five[v] || judged[v] {
+				continue
+			}
+			judged[v] = true
+			ub, has := upperBoundOf(v, c)
+			why := ""
+			switch {
+			case !has:
+				why = "no dominating comparison bounds the count before it reaches " + f.Name()
+			case ub > 29:
+				why = "the count is only known to be <= " + itoa(int(ub)) + " when it reaches " + f.Name() + ": 30 (and 31) codes are accepted"
+			}
+			r.Check(why == "", "R03.18", shortFn(fn)+"|"+lab.get("5-bit count"), p.InstrPos(c), "a 5-bit count of the dynamic header is at most 29 when it is handed to the parser", why)
+		}
+	}
+	for v := range five {
+		if !judged[v] {
+			r.Undecided("R03.18", shortFn(fn)+"|"+lab.get("5-bit count unused"), p.Pos(fn.Pos()), "each 5-bit count reaches a parser call", "a count is not passed on: "+v.Name())
+		}
+	}
+}
